@@ -350,7 +350,7 @@ class FuncGen:
     def program(self):
         R = self.R
         L = []
-        parts = R.shuffle(["recursion", "decorators", "classes", "compiled", "defaults", "closures", "kwcall", "methods"])
+        parts = R.shuffle(["recursion", "decorators", "classes", "compiled", "defaults", "closures", "kwcall", "methods", "badcall"])
         for p in parts[: R.int(2, 5)]:
             L += getattr(self, "p_" + p)()
         return "\n".join(L)
@@ -451,6 +451,29 @@ class FuncGen:
             "try:", f"    plain{t}(1, 2, 3)", "except TypeError:", f"    T('{t}te3', 'TE')",
             "try:", f"    plain{t}(1, a=2)", "except TypeError:", f"    T('{t}te4', 'TE')",
         ]
+
+
+    def p_badcall(self):
+        """A call that fails while its arguments are bound, caught inside another function that then goes on using its
+        own name-resolution state: a name it declared global, a nested def, a global named like the callee's parameter."""
+        R = self.R
+        t = self.tag()
+        bad = R.choice([f"callee{t}()", f"callee{t}(1, 2, 3)", f"callee{t}(1, nosuch{t}=2)", f"callee{t}(1, p{t}=2)", f"callee{t}(*[1, 2, 3])", f"callee{t}(**{{'zz{t}': 1}})"])
+        L = [f"g{t} = 'init'", f"p{t} = 10", f"def callee{t}(p{t}, q{t}=5):", f"    loc{t} = 1", f"    return p{t} + q{t}",
+             f"def caller{t}():", f"    global g{t}", "    try:", f"        {bad}", "    except TypeError:", f"        T('{t}te', 'TE')"]
+        for _ in range(R.int(1, 3)):
+            k = R.choice(["gwrite", "pread", "def", "good"])
+            if k == "gwrite":
+                L.append(f"    g{t} = 'after {self.tag()}'")
+            elif k == "pread":
+                L.append(f"    T('{self.tag()}', p{t})")
+            elif k == "def":
+                u = self.tag()
+                L += [f"    def inner{u}():", f"        return (g{t}, p{t})", f"    T('{u}', inner{u}())"]
+            else:
+                L.append(f"    T('{self.tag()}', callee{t}(1))")
+        L += [f"    return g{t}", f"T('{t}r', caller{t}())", f"T('{t}g', (g{t}, p{t}))"]
+        return L
 
 
 # --------------------------------------------------------------------------------------
